@@ -175,7 +175,7 @@ package cache
 //@ ensures result != nil
 //@ func NewIndexExistsError
 //@ modifies nothing
-//@ ensures result != nil
+//@ ensures result != nil && fresh(result) && result.Existing == existing
 
 // Write paths (C13): the cache stores a clone, never the caller's object; other
 // rows are untouched; on error the rows are untouched.
@@ -525,7 +525,8 @@ package cache
 //@ ensures_err istype(result, "*ErrIndexExists") ==> (fieldOK(row, "_uuid") && (exists i: int :: SchemaPrefix(r, i) && !NoConflictAt(r, row, unbox(fieldOf(row, "_uuid"), "string"), i)))
 //@ loop 1 invariant info != nil && info.Obj == row
 //@ loop 1 invariant forall i: int :: 0 <= i && i <= rangeindex ==> r.indexSpecs[i].indexType == 0
-//@ loop 1 invariant forall i: int :: 0 <= i && i <= rangeindex ==> NoConflictAt(r, row, uuid, i)
+//@ loop 1 invariant conflict == nil ==> (forall i: int :: 0 <= i && i <= rangeindex ==> NoConflictAt(r, row, uuid, i))
+//@ loop 1 invariant conflict != nil ==> (fresh(conflict) && (cap(conflict.Existing) > 0 ==> fresh(conflict.Existing)) && (exists i: int :: 0 <= i && i <= rangeindex && !NoConflictAt(r, row, uuid, i)))
 
 // a row passes IndexExists against this cache
 //@ pred RowOK(r *RowCache, m model.Model) := fieldOK(m, "_uuid") ==> (forall i: int :: SchemaPrefix(r, i) ==> NoConflictAt(r, m, unbox(fieldOf(m, "_uuid"), "string"), i))
